@@ -70,7 +70,7 @@ class DenHarness:
             n0 = len(self.btp.requests)
             if kind == "eva":
                 sv = self.svcs[0 if self.shared else k]
-                sv.trigger_denm_sending({"lat": lat, "lon": lon, "altHAE": 12.0})
+                sv.trigger_denm_sending({"lat": lat, "lon": lon, "altHAE": 12.0 + 10.0 * k})
                 self.event_threads.append(("eva", [t.id for t in s.threads[before:]]))
             else:
                 # collision-risk warning: a single DENM sent synchronously by the application thread
@@ -134,6 +134,10 @@ class DenHarness:
                 ids.add((m["actionId"]["originatingStationId"], m["actionId"]["sequenceNumber"], d["header"]["stationId"]))
                 refs.append(m["referenceTime"])
                 ep = m["eventPosition"]
+                if ekind == "eva" and ep["altitude"]["altitudeValue"] != int((12.0 + 10.0 * k) * 100):
+                    bad.append(dict(kind="event_position_changed", event=k, index=j, field="altitude", got=[ep["altitude"]["altitudeValue"]],
+                                    expected=[int((12.0 + 10.0 * k) * 100)], later_event_triggered=any(x > tt for x in self.trigger_times), **base))
+                    break
                 if (ep["latitude"], ep["longitude"]) != (elat, elon):
                     bad.append(dict(kind="event_position_changed", event=k, index=j, got=[ep["latitude"], ep["longitude"]],
                                     expected=[elat, elon], later_event_triggered=any(x > tt for x in self.trigger_times), **base))
